@@ -86,7 +86,13 @@ def Keeper.ctor (maxKeep : Int) (dir pattern : String) (listing : List Entry) : 
   if maxKeep < 0 then .error .value
   else .ok ⟨maxKeep.toNat, initialScan dir pattern listing⟩
 
-def Keeper.append (k : Keeper) (p : Path) : Keeper := { k with paths := k.paths ++ [p] }
+/-- `append(path)`: a path that is tracked already (a state name that recurs: the earlier directory was removed or
+moved away by someone and the name used again) is tracked as its newest incarnation only (`deque.remove`, then
+`deque.append`). -/
+def Keeper.append (k : Keeper) (p : Path) : Keeper := { k with paths := k.paths.erase p ++ [p] }
+
+/-- The code as found (finding F15): the path is appended whether tracked or not. -/
+def Keeper.appendAsFound (k : Keeper) (p : Path) : Keeper := { k with paths := k.paths ++ [p] }
 
 /-- `select_removal_states()`: pops `len - max_keep` paths from the old end and returns them. -/
 def Keeper.selectRemoval (k : Keeper) : List Path × Keeper :=
